@@ -73,10 +73,10 @@ def battery():
         for _ in range(rng.randrange(3, 14)):
             if present and rng.random() < 0.35:
                 k = rng.choice(present + mk[:2])
-                ops.append(f"rem {k}")
+                ops.append(f"{rng.choice(['rem', 'rem', 'erem'])} {k}")
             else:
                 k = rng.choice(mk)
-                ops.append(f"ins {k} {rng.randrange(100)}")
+                ops.append(f"{rng.choice(['ins', 'ins', 'ins', 'eins'])} {k} {rng.randrange(100)}" if rng.random() < 0.93 else "ret")
             present = list(dict.fromkeys(present + [k]))
         lines.append("map " + ";".join(ops))
         meta.append("map")
@@ -99,7 +99,14 @@ def map_reference(line, insertion):
         if q[0] == "ins":
             rets.append(f"v{d[q[1]]}" if q[1] in d else "none")
             d[q[1]] = int(q[2])
-        else:
+        elif q[0] == "eins":      # entry(k).or_insert(n): keeps an existing value (and its position)
+            d.setdefault(q[1], int(q[2]))
+            rets.append(f"v{d[q[1]]}")
+        elif q[0] == "ret":       # retain the even values, order kept
+            for k in [k for k, v in d.items() if v % 2]:
+                del d[k]
+            rets.append("-")
+        else:                     # rem / erem (occupied entry): the gap closes, order kept
             rets.append(f"v{d.pop(q[1])}" if q[1] in d else "none")
     items = list(d.items()) if insertion else sorted(d.items())
     return "map rets=" + ",".join(rets) + " iter=" + ",".join(f"{k}={v}" for k, v in items)
